@@ -115,3 +115,117 @@ class Gen:
 
 def schema_ast(r):
     return Gen(r).schema()
+
+
+# ---------------------------------------------------------------------------------------------------------------------------------
+# "wild" ASTs for the PRINTER correspondence (kind stprint): everything ast.Schema can hold, well-formed or not.  The printer writes
+# entity / common-type / namespace names, annotation keys and type names verbatim, quotes action and attribute names that are not
+# identifiers (or are reserved words), and escapes string contents itself; so names here include reserved words, builtin-like names,
+# the empty string, blanks, quotes, backslashes, control characters, NUL, DEL, non-ASCII and bytes that are not UTF-8.  The lists are
+# NOT sorted and may repeat a key (the harness builds Go maps from them: the later entry wins).
+
+W_IDENT = ['User', 'Group', 'A', 'a1', '_', '_x9', 'String', 'Long', 'Bool', 'Boolean', 'Set', 'Record', 'Entity', 'Extension', 'ipaddr',
+           'decimal', 'datetime', 'duration', 'namespace', 'entity', 'action', 'type', 'enum', 'tags', 'appliesTo', 'attributes',
+           'principal', 'resource', 'context', 'in', 'if', 'is', 'has', 'like', 'true', 'false', 'then', 'else', '__cedar',
+           '__cedarx', 'X__cedar', 'Action']
+W_ODD = ['', ' ', 'x y', 'a-b', '1a', 'a.b', 'a::b', '::', 'a:b', '"', 'a"b', '\\', 'a\\b', "'", '\\"', 'é', 'aé', '日本', '\U0001F600',
+         '\n', 'a\nb', '\r', '\t', '\x00', 'a\x00b', '\x01', '\x1f', '\x7f', '\x80', '\u00a0', '\u2028', '\ufffd', '\ufeffa', '*', '\\u{41}',
+         b'\xff', b'a\xffb', b'\xc3', b'\xe2\x82', b'\xed\xa0\x80', b'\xf4\x90\x80\x80', b'\xc0\xaf', b'\xf0\x9f\x98', b'\x80abc']
+W_PATH = ['User', 'NS::User', 'A::B::C', '__cedar::String', '__cedar::Long', '__cedar::ipaddr', 'A::__cedar', 'String', 'Set', 'x y', '', 'é', b'\xff']
+W_EXT = ['ipaddr', 'decimal', 'datetime', 'duration', 'foo', '', 'x y', '__cedar::ipaddr']
+W_NS = ['', '', 'NS', 'A::B', 'a', '__cedar', 'A::__cedar', 'X__cedar', 'in', 'x y', 'é', 'String', b'\xff']
+
+
+def _b(s):
+    return s if isinstance(s, bytes) else s.encode('utf-8')
+
+
+T_IDENT = ['User', 'Group', 'A', 'a1', '_', '_x9', 'String', 'Long', 'ipaddr', 'namespace', 'entity', 'action', 'type', 'enum', 'tags', 'appliesTo',
+           'attributes', 'principal', 'resource', 'context', '__cedarx', 'X__cedar', 'Action', 'T', 'U']
+T_COMMON = [n for n in T_IDENT if n not in ('String', 'Long')]
+T_PATH = ['User', 'NS::User', 'A::B::C', '__cedar::String', '__cedar::Long', '__cedar::ipaddr', 'String', 'Long', 'Bool', 'ipaddr', 'enum', 'tags', 'T', '__cedar']
+T_NS = ['', '', 'NS', 'A::B', 'a', 'X__cedar', 'String', 'namespace', 'entity::type', '__cedarx::y']
+
+
+class Wild:
+    """tame=True: declared names, annotation keys, namespace names and references are words the text syntax can spell (the printer writes
+    them verbatim), applies-to lists are not empty; action / attribute names, enum values and annotation values stay arbitrary: the
+    printed text must then parse back"""
+
+    def __init__(self, r, tame=False):
+        self.r = r
+        self.tame = tame
+
+    def name(self, p_odd=0.35):
+        r = self.r
+        return r.choice(W_ODD) if r.random() < p_odd else r.choice(W_IDENT)
+
+    def decl(self, common=False):
+        r = self.r
+        if self.tame:
+            return r.choice(T_COMMON if common else T_IDENT)
+        return self.name(0.1)
+
+    def path(self):
+        return self.r.choice(T_PATH if self.tame else W_PATH)
+
+    def annots(self, p=0.3):
+        r = self.r
+        if r.random() > p:
+            return ['annots']
+        return ['annots'] + [[S(r.choice(W_IDENT) if self.tame else self.name(0.15)), S(r.choice(['', '', 'v', self.name(0.7)]))] for _ in range(r.choice([1, 1, 2, 3]))]
+
+    def ty(self, d):
+        r = self.r
+        k = r.random()
+        if d <= 0 or k < 0.35:
+            return r.choice([['string'], ['long'], ['bool'], ['ext', S(r.choice(W_EXT[:4] if self.tame else W_EXT))], ['ent', S(self.path())], ['ref', S(self.path())]])
+        if k < 0.6:
+            return ['set', self.ty(d - 1)]
+        return self.rec(d - 1)
+
+    def rec(self, d):
+        r = self.r
+        return ['rec'] + [[S(self.name()), self.ty(d), r.choice(['0', '0', '1']), self.annots(0.2)] for _ in range(r.choice([0, 0, 1, 2, 3, 4]))]
+
+    def refs(self, nonempty=False):
+        r = self.r
+        return [S(self.path()) for _ in range(r.choice([1, 1, 2, 3] if nonempty else [0, 0, 1, 1, 2, 3]))]
+
+    def ns(self, name):
+        r = self.r
+        ents = [['ent', S(self.decl()), self.annots(), ['parents'] + self.refs(),
+                 ['shape', self.rec(r.choice([0, 1, 2, 3])) if r.random() < 0.6 else 'none'],
+                 ['tags', self.ty(r.choice([0, 1, 2])) if r.random() < 0.35 else 'none']] for _ in range(r.choice([0, 0, 1, 2, 3]))]
+        enums = [['enum', S(self.decl()), self.annots(), ['values'] + [S(self.name(0.6)) for _ in range(r.choice([0, 1, 2, 3]))]]
+                 for _ in range(r.choice([0, 0, 0, 1, 2]))]
+        if self.tame:      # an entity type and an enumerated type of one name cannot be written in one namespace
+            taken = set(e[1] for e in ents)
+            enums = [e for e in enums if e[1] not in taken]
+        commons = [['ct', S(self.decl(True)), self.annots(), self.ty(r.choice([0, 1, 2, 3]))] for _ in range(r.choice([0, 0, 1, 2]))]
+        acts = []
+        for _ in range(r.choice([0, 0, 1, 2, 3])):
+            parents = [[S(r.choice(['', '', 'Action', 'NS::Action', '__cedar::A'] if self.tame else ['', '', 'Action', 'NS::Action', 'x y', '__cedar'])), S(self.name(0.5))] for _ in range(r.choice([0, 0, 1, 2, 3]))]
+            ap = 'none'
+            if r.random() < 0.7:
+                cx = 'none'
+                if r.random() < 0.6:
+                    cx = self.ty(r.choice([0, 1, 2])) if r.random() < 0.4 else self.rec(r.choice([0, 1, 2]))
+                ap = ['ap', ['principals'] + self.refs(self.tame), ['resources'] + self.refs(self.tame), ['context', cx]]
+            acts.append(['act', S(self.name(0.5)), self.annots(), ['parents'] + parents, ['applies', ap]])
+        return ['ns', S(name), self.annots(0.4), ['entities'] + ents, ['enums'] + enums, ['commons'] + commons, ['actions'] + acts]
+
+    def schema(self):
+        r = self.r
+        k = r.random()
+        if k < 0.05:
+            return ['xschema']
+        if k < 0.12:
+            # namespaces without declarations, with and without annotations
+            return ['xschema'] + [['ns', S(n), self.annots(0.5), ['entities'], ['enums'], ['commons'], ['actions']] for n in r.sample(T_NS if self.tame else W_NS, r.choice([1, 2, 3]))]
+        names = [r.choice(T_NS if self.tame else W_NS) for _ in range(r.choice([1, 1, 2, 3]))]
+        return ['xschema'] + [self.ns(n) for n in names]
+
+
+def wild_ast(r, tame=False):
+    return Wild(r, tame).schema()
